@@ -5,6 +5,8 @@ Props/C18RelocText.lean — C18-R1 (relocation) for source text.
   `orgLine lab n` is an arbitrary string, so `lab ORG $hhhh` need not be an ORG statement at all.
 * `C18_R1` proves the repaired statement (`C18_R1_Repaired`: the label part consists of label characters).
 * `C18_R1_code` is the value-level form: code bytes and symbol table.
+* `C18_R1_equ` (model batch 4): the final symbol table entry by entry, EQUs defined by label expressions included;
+  `reloc_equ_witness` is the evaluated sample.
 -/
 import CoCoVerif.Props.C18RelocSrc
 import CoCoVerif.Lemmas.RelocCheck
@@ -120,7 +122,8 @@ theorem C18_R1 : C18_R1_Repaired := by
   exact C18_R1_parsed stA.hparse stB.hparse hrel hinc (head_org hl hn hla stA.hparse) hA hB
 
 /-- C18-R1, value level, for source text: every ORG at `$100` or above.  Conclusions as in
-`C18_R1_parsed_code`. -/
+`C18_R1_parsed_code` (model batch 4: the last conjunct is about the table entries that are not EQUs defined by a label
+expression, `EquConst`; `C18_R1_equ` is about all entries). -/
 theorem C18_R1_code {fs : Files} {la lb : List Str} {D : Nat} {A B : Assembly}
     (hsh : ShiftOrgP D (OrgOk D) la lb)
     (hhead : ∃ lab n rest, lab.all isLabelCh = true ∧ n < 65536 ∧ la = orgLine lab n :: rest)
@@ -132,12 +135,25 @@ theorem C18_R1_code {fs : Files} {la lb : List Str} {D : Nat} {A B : Assembly}
         ∀ bs, stmtBytes t = some bs →
           ∃ pre x, t.pkg.additional.int? = some x ∧ x + D < 65536 ∧ bs = pre ++ [x / 256, x % 256] ∧
             stmtBytes t' = some (pre ++ [(x + D) / 256, (x + D) % 256]))) ∧
-    (∀ (j : Nat) (k : Str) (v : Value), stA.t[j]? = some (k, v) →
+    (∀ (j : Nat) (k : Str) (v : Value), stA.t[j]? = some (k, v) → EquConst stA.t v →
       ∃ kw, A.symtab[j]? = some kw ∧
         B.symtab[j]? = some (kw.1, if v.isAddress then shiftV D kw.2 else kw.2)) := by
   obtain ⟨lab, n, rest, hl, hn, hla⟩ := hhead
   obtain ⟨hrel, hinc⟩ := parseLines_shift la lb _ _ hsh.pw stA.hparse stB.hparse
   exact C18_R1_parsed_code stA.hparse stB.hparse hrel hinc (head_org hl hn hla stA.hparse) stA stB
+
+/-- C18-R1, value level, for source text, the final symbol table entry by entry (model batch 4: an EQU defined by an
+expression is listed with its value): conclusions as in `C18_R1_parsed_equ` — a label moves by `D`, an EQU that is not
+defined by a label expression stays, an EQU defined by a label expression moves like that expression (`EquRel`) -/
+theorem C18_R1_equ {fs : Files} {la lb : List Str} {D : Nat} {A B : Assembly}
+    (hsh : ShiftOrgP D (OrgOk D) la lb)
+    (hhead : ∃ lab n rest, lab.all isLabelCh = true ∧ n < 65536 ∧ la = orgLine lab n :: rest)
+    (stA : Stages fs la A) (stB : Stages fs lb B) :
+    ∀ (j : Nat) (k : Str) (v : Value), stA.t[j]? = some (k, v) →
+      ∃ x x', A.symtab[j]? = some (k, x) ∧ B.symtab[j]? = some (k, x') ∧ EquRel D stA.ss4 stA.t v x x' := by
+  obtain ⟨lab, n, rest, hl, hn, hla⟩ := hhead
+  obtain ⟨hrel, hinc⟩ := parseLines_shift la lb _ _ hsh.pw stA.hparse stB.hparse
+  exact C18_R1_parsed_equ stA.hparse stB.hparse hrel hinc (head_org hl hn hla stA.hparse) stA stB
 
 /-- C18-R1, value level, for source text, the third class (`MovedMod`): conclusions as in
 `C18_R1_parsed_code_mod` -/
@@ -878,5 +894,104 @@ theorem labelMinusOverflow_classes :
     (stage4 (lines [" ORG $FE00\n", "N EQU -256\n", "A FDB A-N\n"])).map
         (fun as => as.map (fun s => (unmovedB 0x100 as s, movedB 0x100 as s, movedModB 0x100 as s, movedNegB as s)))
       = some [(true, false, false, false), (true, false, false, false), (false, false, false, false)] := by decide
+
+/-! ## EQUs defined by label expressions (model batch 4: `evalSyms`) -/
+
+/-- the body of the EQU sample program: `T EQU L+1` (`label + k`), `W EQU L+N` with the negative `N` (`label + N`, negative
+at `$0100`), `LEN EQU M-L` (`label - label`), `R EQU $4000-L` (`number - label`), and two EQUs that are not defined by
+label expressions: `C EQU 5`, `E EQU C+1` (an expression of constants) -/
+def equBody : List Str :=
+  ["N EQU -384\n", "L NOP\n", "M NOP\n", "T EQU L+1\n", "W EQU L+N\n", "LEN EQU M-L\n", "R EQU $4000-L\n", "C EQU 5\n",
+   "E EQU C+1\n", " LDX #E\n"].map String.toList
+
+def equA : List Str := orgLine [] 0x0100 :: equBody
+def equB : List Str := orgLine [] 0x0200 :: equBody
+
+example : equA.head? = some " ORG $0100\n".toList := by decide
+example : equB.head? = some " ORG $0200\n".toList := by decide
+
+/-- the symbol table listings, evaluated: since batch 4 an EQU defined by an expression is listed with its VALUE.  The
+labels `L`, `M` and `T EQU L+1` move by `$100`; `W EQU L+N` moves by `$100` modulo `$10000` (`$FF80` / `$0080`);
+`LEN EQU M-L` does not move; `R EQU $4000-L` moves by MINUS `$100`; `N`, `C`, `E` are the same -/
+def equSymsA : List Str :=
+  lines ["$FE80 N", "$0100 L", "$0101 M", "$0101 T", "$FF80 W", "$0001 LEN", "$3F00 R", "$0005 C", "$0006 E"]
+def equSymsB : List Str :=
+  lines ["$FE80 N", "$0200 L", "$0201 M", "$0201 T", "$0080 W", "$0001 LEN", "$3E00 R", "$0005 C", "$0006 E"]
+
+/-- the code (`NOP`, `NOP`, `LDX #E`) is the same in both placements -/
+def equImage : Bytes := [0x12, 0x12, 0x8E, 0x00, 0x06]
+
+set_option maxRecDepth 1000000 in
+theorem equA_ok :
+    checkProgram equA (fun A => symtabLines A.symtab == some equSymsA && A.image == some equImage) = true := by decide
+set_option maxRecDepth 1000000 in
+theorem equB_ok :
+    checkProgram equB (fun A => symtabLines A.symtab == some equSymsB && A.image == some equImage) = true := by decide
+
+theorem equ_shift : ShiftOrgP 0x100 (OrgOk 0x100) equA equB :=
+  shiftOrgP_single [] 0x0100 equBody (by decide) (by unfold OrgOk; omega) (by omega) (by decide)
+
+set_option maxRecDepth 1000000 in
+/-- the classes of the table entries, entry by entry (is a label, `equConstB`, then `equLabelB` with `numExprB`, `modExprB`,
+`diffExprB`, `negExprB`; Lemmas/RelocCheck.lean): `N`, `C`, `E` are EQUs not defined by a label expression; `L`, `M` are
+labels; `T` is `NumExpr` (and `ModExpr`), `W` is `ModExpr` only (its value `$FF80` does not stay below `$10000` when
+moved), `LEN` is `DiffExpr`, `R` is `NegExpr` -/
+theorem equA_classes :
+    (stage4 equA).bind (fun as => (stageT equA).map (fun t => t.map (fun kv =>
+      [kv.2.isAddress, equConstB t kv.2, equLabelB (numExprB 0x100 as) t kv.2, equLabelB (modExprB 0x100 as) t kv.2,
+        equLabelB diffExprB t kv.2, equLabelB (negExprB as) t kv.2])))
+      = some [[false, true, false, false, false, false], [true, true, false, false, false, false],
+              [true, true, false, false, false, false], [false, false, true, true, false, false],
+              [false, false, false, true, false, false], [false, false, false, false, true, false],
+              [false, false, false, false, false, true], [false, true, false, false, false, false],
+              [false, true, false, false, false, false]] := by decide
+
+set_option maxRecDepth 1000000 in
+theorem equA_cover : (stage4 equA).map (coverB 0x100) = some true := by decide
+
+set_option maxRecDepth 1000000 in
+theorem equA_equCover : (stage4 equA).bind (fun as => (stageT equA).map (equCoverB 0x100 as)) = some true := by decide
+
+/-- the EQU sample program relocated by `$100`: both assemble, with the symbol table listings above (the EQUs defined by
+label expressions are NOT unchanged: this is why `reloc_finish` asks for `NoLabelEqu` and the last conjunct of
+`C18_R1_code` for `EquConst`); every statement is `Unmoved` or `Moved` and every table entry is covered (`EquCovered`),
+so `reloc_finish_equ` speaks about the whole program; and entry by entry the final values are related by `EquRel`
+(`C18_R1_equ`) -/
+theorem reloc_equ_witness : ∃ A B, assemble [] equA = .ok A ∧ assemble [] equB = .ok B ∧
+    symtabLines A.symtab = some equSymsA ∧ symtabLines B.symtab = some equSymsB ∧
+    A.image = some equImage ∧ B.image = some equImage ∧
+    ∀ (stA : Stages [] equA A),
+      (∀ (i : Nat) (s : Stmt), stA.ss4[i]? = some s → Unmoved 0x100 stA.ss4 s ∨ Moved 0x100 stA.ss4 s) ∧
+      (∀ kv ∈ stA.t, EquCovered 0x100 stA.ss4 stA.t kv.2) ∧
+      ∀ (j : Nat) (k : Str) (v : Value), stA.t[j]? = some (k, v) →
+        ∃ x x', A.symtab[j]? = some (k, x) ∧ B.symtab[j]? = some (k, x') ∧ EquRel 0x100 stA.ss4 stA.t v x x' := by
+  obtain ⟨A, hA, cA⟩ := checkProgram_sound equA_ok []
+  obtain ⟨B, hB, cB⟩ := checkProgram_sound equB_ok []
+  simp only [Bool.and_eq_true, beq_iff_eq] at cA cB
+  obtain ⟨stB⟩ := assemble_stages hB
+  have hhd : ∃ lab n rest, lab.all isLabelCh = true ∧ n < 65536 ∧ equA = orgLine lab n :: rest :=
+    ⟨[], 0x0100, equBody, by decide, by omega, rfl⟩
+  refine ⟨A, B, hA, hB, cA.1, cB.1, cA.2, cB.2, ?_⟩
+  intro stA
+  refine ⟨?_, ?_, C18_R1_equ equ_shift hhd stA stB⟩
+  · have hc := equA_cover
+    cases h4 : stage4 equA with
+    | none => rw [h4] at hc; cases hc
+    | some x =>
+      rw [h4] at hc
+      simp only [Option.map_some, Option.some.injEq] at hc
+      rw [stage4_eq stA h4]
+      exact coverB_sound hc
+  · have hc := equA_equCover
+    cases h4 : stage4 equA with
+    | none => rw [h4] at hc; cases hc
+    | some x =>
+      cases hT : stageT equA with
+      | none => rw [h4, hT] at hc; cases hc
+      | some tt =>
+        rw [h4, hT] at hc
+        simp only [Option.bind_some, Option.map_some, Option.some.injEq] at hc
+        rw [stage4_eq stA h4, stageT_eq stA hT]
+        exact equCoverB_sound hc
 
 end CoCo.Props
